@@ -13,6 +13,7 @@ from . import theory as T
 from .engine import Run, PathCtx, Frame, ReturnSignal, to_bool_term, const_val
 from . import contracts as C
 from .lib import Lib, RArr, mrows, mcols
+from . import laws     # noqa: F401  (registers the lemma-kind axioms)
 
 BUILTINS = {'len', 'max', 'min', 'sum', 'dict', 'list', 'set', 'zip', 'enumerate', 'range', 'isinstance', 'issubclass',
             'type', 'callable', 'int', 'float', 'str', 'hasattr', 'bool', 'tuple', 'abs', 'sorted', 'id', 'hash',
@@ -489,6 +490,7 @@ class Engine:
         scripts = [[]]
         npaths = 0
         covered = False
+        nonparam = []
         while scripts:
             script = scripts.pop()
             run = Run(self, PathCtx(script))
@@ -502,7 +504,17 @@ class Engine:
             except Infeasible:
                 pass
             except Unsupported as e:
-                problems.append((label, 'unsupported', str(e), list(run.path.taken)))
+                if str(e).startswith('arm-parametric') and not fi.module.startswith('lemma_'):
+                    # MT3 side condition (C20): an arm label flows into an operation other than ==, hashing, storage
+                    nonparam.append(str(e))
+                    ob = Obligation('%s:arm.parametric' % label, qual, 'arm.parametric', list(run.st.pc),
+                                    z3.BoolVal(False), props=tuple(set(sp.props) | {'C20'}),
+                                    meta={'clause': 'arm labels are used only through equality, dict/list storage and '
+                                                    'membership (%s)' % e})
+                    ob.path = list(run.path.taken)
+                    run.obligs.append(ob)
+                else:
+                    problems.append((label, 'unsupported', str(e), list(run.path.taken)))
             except RecursionError:
                 problems.append((label, 'unsupported', 'recursion limit', list(run.path.taken)))
             obligs.extend(run.obligs)
@@ -511,6 +523,13 @@ class Engine:
             if npaths > 600:
                 problems.append((label, 'unsupported', 'path explosion', []))
                 break
+        if not nonparam and not fi.module.startswith('lemma_'):
+            ob = Obligation('%s:arm.parametric' % label, qual, 'arm.parametric', [], z3.BoolVal(True),
+                            props=tuple(set(sp.props) | {'C20'}),
+                            meta={'clause': 'arm labels are used only through equality, dict/list storage and membership '
+                                            '(checked on every explored path by the translation itself)'})
+            ob.path = []
+            obligs.append(ob)
         return obligs, problems
 
     def _verify_path(self, run, fi, sp, cls, first):
@@ -585,6 +604,8 @@ class Engine:
             except PyRaise as e:
                 g = z3.BoolVal(False)
             run.emit('post', g, c.name or ('#%d' % k), props=c.props or sp.props, meta={'clause': c.text})
+            if sp.chain:
+                run.st.assume(g)      # a sequential proof: later clauses are proved under the earlier ones
         C.frame_obligations(run, entry, descs, roots, sp.props)
 
     # ------------------------------------------------------------------------------ non-interference
@@ -702,6 +723,14 @@ class Engine:
             finally:
                 run.st = saved
             run.emit('raises.cond', cnd, '%s %s' % (e.exc_type, e.where), meta={'clause': sp.raises_iff})
+        if sp.raises_only_if:
+            saved = run.st
+            run.st = entry
+            try:
+                cnd = C.eval_clause(run, specmod.Clause(sp.raises_only_if), env, fi=fi, dyn_cls=cls)
+            finally:
+                run.st = saved
+            run.emit('raises.cond', cnd, '%s %s' % (e.exc_type, e.where), meta={'clause': sp.raises_only_if})
         for k, c in enumerate(C.expand(run, sp.ensures_raises, env, cls)):
             g = C.eval_clause(run, c, env, old_state=entry, fi=fi, dyn_cls=cls)
             run.emit('raises.post', g, c.name or ('#%d' % k), props=c.props or sp.props, meta={'clause': c.text})
